@@ -206,11 +206,22 @@ def run_case(case, rng):
 
     # ---- rebuild from the arrays ---------------------------------------------------------------------
     def roundtrip():
+        sl, al = mdp.state_list, mdp.action_list
+        as_lists = rng.random() < 0.4
+        if as_lists:
+            # the lists are handed over as plain Python lists that the caller goes on using (appending to) afterwards:
+            # the rebuilt MDP must have taken its own snapshot at construction time
+            sl, al = list(sl), list(al)
         m2 = TabularMarkovDecisionProcess.from_matrices(
-            state_list=mdp.state_list, action_list=mdp.action_list,
+            state_list=sl, action_list=al,
             initial_state_vec=mdp.initial_state_vec, transition_matrix=mdp.transition_matrix,
             action_matrix=mdp.action_matrix, reward_matrix=mdp.reward_matrix,
             absorbing_state_vec=mdp.absorbing_state_vec, discount_rate=mdp.discount_rate)
+        if as_lists:
+            al.append("ACTION-ADDED-BY-THE-CALLER-LATER")
+            if rng.random() < 0.5:
+                sl.append("STATE-ADDED-BY-THE-CALLER-LATER")
+            case.count("from_matrices_lists_mutated_by_caller_afterwards")
         _same_mdp(case, "from_matrices", mdp, m2, ValueIteration, sp)
         case.count("from_matrices_roundtrips")
     case.call("from_matrices", roundtrip)
